@@ -485,6 +485,35 @@ pub fn run(repo: &str, unit_path: &str, canary: bool) -> std::result::Result<Run
                     };
                     rewrites.push(json!({"rule": "R11", "in": target, "file": file, "src_line": c.or1_token.span.start().line,
                         "before": format!("closure #{n} of {target}"), "after": "lifted into a function of its own (captured variables become parameters)"}));
+                } else if let Some(armtxt) = o.get("arm") {
+                    // R12: one arm of a `match` lifted into a function of its own: `arm=<pattern>` (whitespace-free pattern text,
+                    // `|` alternatives included), body = the arm's block followed by `tail=<expr>` (what the original function
+                    // does after the match). Dropped: the dispatcher around the arm; locals it uses become parameters (sig: line).
+                    let want = norm_str(armtxt).ok_or(format!("bad arm= text in {target}"))?;
+                    struct FindArm { want: String, found: Option<syn::Arm> }
+                    impl<'ast> syn::visit::Visit<'ast> for FindArm {
+                        fn visit_arm(&mut self, a: &'ast syn::Arm) {
+                            if self.found.is_none() && norm(&a.pat.to_token_stream()) == self.want {
+                                self.found = Some(a.clone());
+                            }
+                            syn::visit::visit_arm(self, a);
+                        }
+                    }
+                    let mut fa = FindArm { want, found: None };
+                    syn::visit::Visit::visit_block(&mut fa, &body);
+                    let arm = fa.found.ok_or(format!("lost-anchor arm `{armtxt}` in {target}"))?;
+                    let line = arm.fat_arrow_token.spans[0].start().line;
+                    let mut blk = match *arm.body {
+                        Expr::Block(b) => b.block,
+                        other => Block { brace_token: Default::default(), stmts: vec![Stmt::Expr(other, Some(Default::default()))] },
+                    };
+                    if let Some(t) = o.get("tail") {
+                        let te: Expr = parse_str(t).map_err(|e| format!("bad tail= in {target}: {e}"))?;
+                        blk.stmts.push(Stmt::Expr(te, None));
+                    }
+                    body = blk;
+                    rewrites.push(json!({"rule": "R12", "in": target, "file": file, "src_line": line,
+                        "before": format!("match arm `{armtxt}` of {target}"), "after": "lifted into a function of its own (locals it uses become parameters; the dispatcher around it is dropped)"}));
                 } else {
                     cl.visit_block_mut(&mut body);
                     for n in closure_repl.keys() {
@@ -572,7 +601,7 @@ pub fn run(repo: &str, unit_path: &str, canary: bool) -> std::result::Result<Run
                     sigtxt.push_str(&format!(" {}", wc.to_token_stream()));
                 }
                 // a lifted closure has no signature of its own: the template supplies it on a contract line `sig: <text>`
-                if o.contains_key("closure") {
+                if o.contains_key("closure") || o.contains_key("arm") {
                     let pos = contract.iter().position(|l| l.trim_start().starts_with("sig:")).ok_or("closure= needs a `sig: fn name(..) -> (r: T)` line")?;
                     let l = contract.remove(pos);
                     sigtxt = l.trim_start()["sig:".len()..].trim().to_string();
